@@ -282,6 +282,15 @@ def replay_slice(args):
 def replay(init, groups, outdir, nshards=None, lookup=(), listeners="", chain=False):
     nshards = nshards or NPROC
     os.makedirs(outdir, exist_ok=True)
+    if not chain and len(groups) < nshards:
+        # few states with many candidate calls each: spread the candidates of a state over the workers
+        split = []
+        for hist, cands in groups:
+            cands = sorted(cands, key=_call_key)
+            parts = max(1, min(nshards, len(cands) // 40))
+            for j in range(parts):
+                split.append((hist, cands[j::parts]))
+        groups = split
     slices = [(i, init, groups[i::nshards], os.path.join(outdir, "shard%02d.ndjson" % i), list(lookup), listeners, chain)
               for i in range(nshards)]
     slices = [s for s in slices if s[2]]
